@@ -62,7 +62,7 @@ func init() {
 		Run:   c05Run,
 		Rule: "one case = one calendar year (all its days with both range-end flags, its 12 month-year dates, the year-only date, " +
 			"day->next-day pairs incl. the roll-over into the next year, (first day, partial, last day) triples) compared with an independent " +
-			"integer-day-number Gregorian calendar; plus batches of random ordered pairs of disjoint periods. thorough = all years 1..9999. " +
+			"integer-day-number Gregorian calendar; plus batches of random ordered pairs of disjoint periods (IsBefore/IsAfter, and DateNodes.Minimum/Maximum over shuffled sets of 2-5 pairwise disjoint periods). thorough = all years 1..9999. " +
 			"non-trivial/distinct = each (day|month|year date) evaluated, counted by hash of its y-m-d",
 		Exhaustive: func(tier string) bool { return tier == "thorough" },
 		Floors: func(a *fw.Agg, tier string) []string {
@@ -275,6 +275,57 @@ func c05Pairs(c *fw.Ctx, k int) {
 		}
 		// DateRange-level ordering (consumers: sorting, Minimum/Maximum)
 		c.NontrivialStr(fmt.Sprintf("p%d-%d-%d/%d-%d-%d", y1, m1, d1, y2, m2, d2))
+		// minimum and maximum of a set of dates that hold this pair (pairwise
+		// disjoint periods only, so that calendar order leaves no doubt)
+		if (l1 < f2 || l2 < f1) && j%4 == 0 {
+			type per struct {
+				f, l int64
+				text string
+			}
+			spell := func(y, m, d int) string {
+				mon := []string{"", "Jan", "Feb", "Mar", "Apr", "May", "Jun", "Jul", "Aug", "Sep", "Oct", "Nov", "Dec"}
+				switch {
+				case d != 0:
+					return fmt.Sprintf("%d %s %d", d, mon[m], y)
+				case m != 0:
+					return fmt.Sprintf("%s %d", mon[m], y)
+				}
+				return fmt.Sprint(y)
+			}
+			set := []per{{f1, l1, spell(y1, m1, d1)}, {f2, l2, spell(y2, m2, d2)}}
+			for extra := c.R.Intn(4); extra > 0; extra-- {
+				y, m, d := c05RandDate(c.R)
+				f, l := ref.Period(y, m, d)
+				ok := true
+				for _, p := range set {
+					if !(l < p.f || p.l < f) {
+						ok = false
+					}
+				}
+				if ok {
+					set = append(set, per{f, l, spell(y, m, d)})
+				}
+			}
+			c.R.Shuffle(len(set), func(a, b int) { set[a], set[b] = set[b], set[a] })
+			var nodes gedcom.DateNodes
+			lo, hi := set[0], set[0]
+			for _, p := range set {
+				nodes = append(nodes, gedcom.NewDateNode(p.text))
+				if p.f < lo.f {
+					lo = p
+				}
+				if p.l > hi.l {
+					hi = p
+				}
+			}
+			c.Count("minimum-maximum-sets", 1)
+			if got := nodes.Minimum(); got == nil || got.Value() != lo.text {
+				c.Violation("minimum:"+c05Class(y1, m1, d1)+"/"+c05Class(y2, m2, d2), fmt.Sprintf("DateNodes.Minimum of %v is %v, the earliest is %s", nodes, got, lo.text), []int{y1, m1, d1, y2, m2, d2})
+			}
+			if got := nodes.Maximum(); got == nil || got.Value() != hi.text {
+				c.Violation("maximum:"+c05Class(y1, m1, d1)+"/"+c05Class(y2, m2, d2), fmt.Sprintf("DateNodes.Maximum of %v is %v, the latest is %s", nodes, got, hi.text), []int{y1, m1, d1, y2, m2, d2})
+			}
+		}
 	}
 	_ = k
 }
